@@ -306,4 +306,59 @@ CHECKS = {
             {"harness": "VH_C15E", "covers": ["C15E:standard", "C15E:terminating"]},
         ],
     },
+    "C04": {
+        "explanation": "Symbolic execution of appendQuotedString/appendQuotedWith/appendEscapedRune, pcAppendStringKey, AddString/AddInt, "
+                       "appendValue and all renderers, appendError, serializeAttrs, gkvp.SerializeValueTo, printImpl, Begin/End, printPC, "
+                       "with strconv.AppendInt/IsPrint and utf8 decoding as real SSA. The oracle is a reference RFC 8259 recursive-descent "
+                       "validator+decoder written in the harness and executed symbolically on the library's own output. A: any byte string "
+                       "(all 256 values per byte) as message, as attribute value and as attribute key: one line, one valid JSON object, "
+                       "msg/value decode byte for byte (valid UTF-8), the attribute under its own key. B: a record with attributes of 19 "
+                       "kinds (string, bool, int64/uint64 extremes, small widths, float, complex, Duration, Time, error, Stringer, []byte, "
+                       "nil, []string/[]int/[]bool, struct via the fallback, groups nested to the bound incl. empty), caller field on/off: "
+                       "members time/logger/level/msg/caller, one member per key, values preserved.",
+        "bounds": {"quick": "A: strings of <= 2 bytes; B: 1 attribute with group depth 1, and 2 attributes without groups",
+                   "thorough": "A: strings of <= 3 bytes; B: 1 attribute with group depth 2, 2 attributes with depth 1"},
+        "outside": "maps via the fallback formatter (fmt needs reflect.Value.MapRange: not encoded); user marshallers / value stringers (excluded by the property); longer strings",
+        "assumptions": ["timestamp text comes from the real time formatter on a fixed instant"],
+        "runs": [
+            {"harness": "VH_C04A", "quick": {"len": 2}, "thorough": {"len": 3}, "covers": ["C04A:rendered"]},
+            {"harness": "VH_C04B", "quick": {"attrs": 1, "depth": 1}, "thorough": {"attrs": 1, "depth": 2}, "covers": ["C04B:rendered"]},
+            {"harness": "VH_C04B", "quick": {"attrs": 2, "depth": 0}, "thorough": {"attrs": 2, "depth": 1}, "covers": ["C04B:rendered"]},
+        ],
+    },
+    "C05": {
+        "explanation": "Symbolic execution of the logfmt branch of the print path (DotPrefix, the inGroupedMode/prefix logic of serializeAttrs, "
+                       "AddPrefixedString/Int, appendQuotedWith, all renderers) in production mode. The oracle is a logfmt tokenizer in the "
+                       "harness that decodes quoted values with the standard library's strconv.Unquote (both executed symbolically on the "
+                       "library's output). Message: any bytes; keys: symbolic legal logfmt keys, pairwise distinct; values of 11 kinds "
+                       "including []byte, nil, error, Stringer, Duration and groups nested to the bound at every position. Asserted: one "
+                       "line; time, logger, level, msg first; msg parses back; exactly one pair per attribute under its own (dotted) key "
+                       "with its exact value; string-like values quoted; no forged pair.",
+        "bounds": {"quick": "message <= 2 bytes (no attributes); 1 attribute of any kind incl. a group with <= 2 members of any kind at every position; keys of 1 byte", "thorough": "message <= 3 bytes; 1 attribute with group depth 2 and 2-byte keys; plus 2 top-level attributes of any kind (an attribute after a group)"},
+        "outside": "the multi-line error dump under go test / debugger (production mode is set by the harness); user marshallers",
+        "assumptions": ["runs of spaces between pairs are not counted as pairs"],
+        "runs": [
+            {"harness": "VH_C05", "quick": {"attrs": 1, "depth": 1, "msg": 2, "key": 1}, "thorough": {"attrs": 1, "depth": 2, "msg": 3, "key": 2}, "covers": ["C05:rendered"]},
+            {"harness": "VH_C05", "quick": {"attrs": 2, "depth": 0, "msg": 0, "key": 1}, "thorough": {"attrs": 2, "depth": 0, "msg": 0, "key": 1}, "thorough_only": True, "covers": ["C05:rendered"]},
+        ],
+    },
+    "C06": {
+        "explanation": "Symbolic execution of the colour branch of printImpl, printFirstLineOfMsg/printRestLinesOfMsg, colorizeToolS, the "
+                       "hedzr/is color writers, serializeAttrs colour handling, appendError, Level.ShortTag, SetLevelOutputWidth, "
+                       "SetMessageMinimalWidth - and of the real HTML-based translator (golang.org/x/net/html tokenizer and parser run "
+                       "symbolically on the symbolic message; no model). Oracle 1 (hygiene): an SGR scanner asserts that every ESC belongs "
+                       "to an ESC[..m sequence and that no colour is on at any line break nor at the end, for all messages without ESC "
+                       "bytes; attribute values contribute no raw control bytes. Oracle 2 (layout): the text without escapes must equal "
+                       "timestamp, name, [tag of the configured width], first line padded to the minimal width, attributes in key order, "
+                       "rest lines indented by four spaces - for severities built-in, registered with and without tags, and unregistered.",
+        "bounds": {"quick": "messages <= 3 bytes over printable ASCII without < > & plus LF (layout) / <= 2 bytes of anything but ESC (hygiene); tag widths 1..5 and minimal widths 16/17/36 with messages <= 2 bytes; 4 attribute lists (ints, symbolic string, error+group, []byte)",
+                   "thorough": "messages <= 4 bytes (layout), <= 3 bytes (hygiene)"},
+        "outside": "messages containing < > & (excluded by the property); the multi-line error dump under go test; caller field (C14)",
+        "assumptions": ["timestamp text from the real formatter on a fixed instant"],
+        "runs": [
+            {"harness": "VH_C06", "quick": {"msg": 3, "attrkinds": 4}, "thorough": {"msg": 4, "attrkinds": 4}, "covers": ["C06:rendered"]},
+            {"harness": "VH_C06", "quick": {"msg": 2, "attrkinds": 2, "widths": 1}, "thorough": {"msg": 3, "attrkinds": 2, "widths": 1}, "covers": ["C06:rendered"]},
+            {"harness": "VH_C06", "quick": {"msg": 2, "attrkinds": 5, "hygiene": 1}, "thorough": {"msg": 3, "attrkinds": 5, "hygiene": 1}, "covers": ["C06:rendered"]},
+        ],
+    },
 }
